@@ -48,6 +48,46 @@ def value_variants():
     return names
 
 
+def check_fresh(ctx, out, rule):
+    """A fresh interpreter per script run (shared with C17.fresh and C13): the factory is called only
+    inside the function that runs one script for one block."""
+    from rules.C17 import factory_fn
+    runner = None
+    for b in ctx.reachable_bodies():
+        if any(callee_matches(t, r"^mlua::Function::(call_async|call)$") for bi, t in b.calls()):
+            runner = b
+    facs = factory_fn(ctx)
+    if len(facs) == 1 and runner is not None:
+        sites = [(b, bi, t) for b in ctx.reachable_bodies() for bi, t in b.calls() if (t.get("res") or "") == facs[0].id]
+        vb = ctx.validate_body(NAME)
+        inner = {x.id for x in ctx.facts.with_descendants(vb)} if vb is not None else set()
+        tops = set()
+        if vb is not None:
+            for x in ctx.facts.with_descendants(vb):
+                if any(callee_matches(tt, r"tokio::task::JoinSet::<T>::spawn") for _, tt in x.calls()):
+                    tops.add(x.id)
+                    if x.parent:
+                        tops.add(x.parent)
+            tops.add(vb.id)
+
+        def per_block(b, bi):
+            if b.id == runner.id or (runner.parent and b.id == runner.parent):
+                return True
+            if b.id in tops:
+                # in the function that walks the blocks: only inside the per-block loop
+                return any(bi in blocks for h, blocks, kind in shared.outer_block_loops(ctx, b) if kind == "blocks")
+            return b.id in inner        # the spawned per-block task (or a closure of it)
+        okf = sites and all(per_block(b, bi) for b, bi, t in sites)
+        if okf:
+            out.inst(rule, 1, 1, ["interpreter created inside the per-block runner"])
+        else:
+            out.viol(rule, "%s|shared-interpreter" % rule, ctx.where(sites[0][0], sites[0][2]["span"]) if sites else "-",
+                     "the Lua interpreter is not created inside the function that runs one script for one block: scripts share globals (a script without `validate` would silently call another script's)")
+            out.inst(rule, 0, 1)
+    else:
+        out.inst(rule, 0, 1, note="interpreter factory / script runner not found")
+
+
 def run(ctx, out, tier):
     res = asyncval.check_once(ctx, out, "C18", NAME, r"check_lua::run_lua_script$", "script run (`run_lua_script`)")
     runner = None
@@ -245,18 +285,16 @@ def run(ctx, out, tier):
     shared.sh_err(ctx, out, ctx.validator_bodies(NAME) + [b for b in ctx.reachable_bodies() if b.id.startswith("blockwatch::validators::run")], floor=25)
     shared.sh_state(ctx, out, NAME)
     shared.sh_merge(ctx, out, ctx.reachable_bodies())
-    # fresh interpreter per run (shared with C17.fresh)
-    from rules.C17 import factory_fn
-    facs = factory_fn(ctx)
-    if len(facs) == 1 and runner is not None:
-        sites = [(b, bi, t) for b in ctx.reachable_bodies() for bi, t in b.calls() if (t.get("res") or "") == facs[0].id]
-        okf = sites and all(b.id == runner.id for b, bi, t in sites)
-        if okf:
-            out.inst("C18.fresh", 1, 1, ["interpreter created inside the per-block runner"])
-        else:
-            out.viol("C18.fresh", "C18.fresh|shared-interpreter", ctx.where(sites[0][0], sites[0][2]["span"]) if sites else "-",
-                     "the Lua interpreter is not created inside the function that runs one script for one block: scripts share globals (a script without `validate` would silently call another script's)")
-            out.inst("C18.fresh", 0, 1)
+    check_fresh(ctx, out, "C18.fresh")
+    # the validator only runs if the lazy detection loop creates it: every pending detector is asked
+    # about every block (shared with C11/C13/C14)
+    from rules.C14 import check_once as _detect_once, detect_fn as _detect_fn
+    _dv = _detect_fn(ctx)
+    if _dv is not None:
+        _detect_once(ctx, out, _dv, rule="C18.detect")
+    else:
+        out.inst("C18.detect", 0, 4)
+    shared.sh_flags(ctx, out, "check-lua", "C18.flags")
     return meta()
 
 
